@@ -52,5 +52,9 @@ Wrapped(lang) ==
 Langs == {"typescript", "kotlin", "swift", "scala", "go", "python"}
 Predict == [l \in Langs |-> Safe(l, Wrapped(l))]
 
-Emit == doc # <<>> => PrintT(<<"REPLAY", ToJson([doc |-> doc, predict_safe |-> Predict])>>)
+\* companies: the entry (which may contain line breaks: block / #[doc] style) is not the element's only doc attribute - a single-line
+\* `///` attribute stands before or after it. Every entry is wrapped on its own, whatever else documents the element.
+Companies == {"block_after_line", "attr_after_line", "block_before_line", "attr_before_line"}
+HasBreak == \E i \in 1..Len(doc) : doc[i] \in {"NL", "CRLF", "CR", "NLSL", "NLBC", "BCCR"}
+Emit == doc # <<>> => PrintT(<<"REPLAY", ToJson([doc |-> doc, predict_safe |-> Predict, companies |-> IF HasBreak THEN Companies ELSE {}])>>)
 =============================================================================
